@@ -4,7 +4,7 @@
 From Coq Require Import List NArith.
 From RaftLog Require Import Base.Bytes Model.Types Model.Cache Model.Core Model.Recover Model.Run Model.Sys.
 From RaftLog Require Import Spec.Durable.
-From RaftLog Require Proofs.PurgeFacts Proofs.PurgeDurable Proofs.PurgeLive.
+From RaftLog Require Proofs.NoPanic Proofs.PurgeFacts Proofs.PurgeDurable Proofs.PurgeLive Proofs.RestartSys.
 Import ListNotations.
 
 (* any interleaving, batching and failures: a chunk file that is gone was requested for
@@ -38,7 +38,29 @@ Theorem C08_only_dead_partial : forall cfg z,
   zreach cfg z -> PurgeLive.hist_legal z -> z_todo z = [] -> live_entries_have_files z.
 Proof. exact PurgeLive.C08_only_dead_partial. Qed.
 
+(* ---- the same for a store instance started by opening ANY directory that opens (restart) *)
+Theorem C08_removed_after_durable_from : forall cfg d z,
+  RestartSys.dir_wf d -> RestartSys.older_synced d -> RestartSys.zreach_from cfg d z -> removed_after_durable z.
+Proof. exact RestartSys.C08_removed_after_durable_from. Qed.
+
+Theorem C08_oldest_first_from : forall cfg d z,
+  NoPanic.disk_sorted d -> RestartSys.zreach_from cfg d z -> files_contiguous z.
+Proof. exact RestartSys.C08_oldest_first_from. Qed.
+
+Theorem C08_liveness_from : forall cfg d z,
+  NoPanic.disk_sorted d -> RestartSys.zreach_from_ff cfg d z -> worker_idle2 z -> removals_done z.
+Proof. exact RestartSys.C08_liveness_from. Qed.
+
+(* [older_synced] is necessary here too: a reopened store purges and unlinks the oldest file
+   while a middle file it never wrote is unsynced *)
+Theorem C08_restart_needs_older_synced :
+  exists z, RestartSys.dir_wf RestartSys.bad_dir3 /\
+            RestartSys.zreach_from RestartSys.demo_cfg RestartSys.bad_dir3 z /\ ~ removed_after_durable z.
+Proof. exact RestartSys.older_synced_needed_C08. Qed.
+
 Print Assumptions C08_removed_after_durable.
 Print Assumptions C08_oldest_first.
 Print Assumptions C08_liveness.
 Print Assumptions C08_only_dead_partial.
+Print Assumptions C08_removed_after_durable_from.
+Print Assumptions C08_liveness_from.
